@@ -68,6 +68,7 @@ def fault_injector(kind: str, fault: str, step: int | None, at: float | None, pl
                 s.feed(c, b"\x01garbage\xff\xaa\x55 not a packet\r\n\x00\x00")
                 s.eof(c)
             elif fault == "sorry":
+                s.ev("Banner", conn=c)          # the gateway refuses service on this link: the client will abandon it
                 s.feed(c, b"Sorry,Limited")
             elif fault.startswith("write-error-late-eof"):
                 # the write fails first; the reading side of the old link only ends 0.1 s later, when the
